@@ -8,16 +8,16 @@ import z3
 
 from pyvc import contract, prims
 from pyvc.contract import LoopSpec, Outcome, Spec
-from pyvc.engine import RaiseSig, Unsupported, bytes_eq, bytes_num
+from pyvc.engine import ContractStale, RaiseSig, Unsupported, bytes_eq, bytes_num
 from pyvc.ground import All, Ex, FAnd, FNot, FOr
 from pyvc.values import (B, I, NONE, Obj, V, VBool, VBytes, VExc, VFunc, VInt, VNone, VOpaque,
                          VRef, VStr, VTuple, fresh_name)
 
 from . import fsmodel as M
-from .common import ConflictError, POSKeyError, UndoError, inst
+from .common import ConflictError, POSKeyError, ReadOnlyError, StorageTransactionError, UndoError, inst
 from .fs_format import b8_eq_num, field_eq, slice_is, txn
 from .fs_load import bend_axioms, bend_fn, data_val, ghost_of
-from .fs_write import WriteSpec, txn_facts
+from .fs_write import WriteSpec, lock_balanced, txn_facts
 
 AII = z3.ArraySort(I, I)
 UNDO_RES_OK = z3.Function('undo_resolvable', I, I, I, AII, I, I, AII, I, I, B)
@@ -258,3 +258,233 @@ class TxnUndoWriteRefusal(WriteSpec):
 
 
 SPECS.append(TxnUndoWriteRefusal)
+
+
+# ======================================================================================
+# DB.TransactionalUndo: undo as a resource manager of the caller's transaction
+# ======================================================================================
+TU = 'ZODB.DB:TransactionalUndo'
+
+
+class TUSpec(Spec):
+    props = ('C06',)
+
+    def mk(self, c, with_storage=True):
+        st = c.fresh_opaque('undo_storage') if with_storage else NONE
+        tids = prims.new_slist(c, 'bytes8', '_tids')
+        me = inst(c, TU, _db=c.fresh_opaque('db'), _tids=tids, _storage=st)
+        txn = c.fresh_opaque('transaction')
+        c.ghost['tu2'] = {'me': me, 'st': st, 'tids': tids, 'txn': txn, 'data': c.fresh_opaque('txn_data'),
+                          'n0': 0, 'ok': z3.BoolVal(True)}
+        return me, txn
+
+    def hooks(self, c):
+        g = lambda cc: cc.ghost['tu2']
+
+        def ometh(cc, v, name, args, kwargs, node):
+            if v.tag == 'transaction' and name == 'data':
+                cc.oblige('transaction.data-asked-for-THIS-manager', len(args) == 1 and isinstance(args[0], VRef) and
+                          args[0].id == g(cc)['me'].id, node, assume_after=False)
+                return g(cc)['data']
+            if v.tag == 'undo_storage':
+                cc.event('storage', name, tuple(args))
+                if name in ('undo', 'tpc_vote', 'tpc_finish', 'tpc_abort') and \
+                        cc.choose([True, True], 'storage-' + name) == 1:
+                    raise RaiseSig(VExc(UndoError if name == 'undo' else 'builtins:Exception'))
+                return NONE
+            return None
+        return {'opaque_method': ometh, 'opaque_is_none': lambda cc, v: False}
+
+    def calls(self, c, name):
+        return [e for e in c.events if e[0] == 'storage' and e[1] == name]
+
+
+class TUCommit(TUSpec):
+    """TransactionalUndo.commit: every tid handed to DB.undo/undoMultiple is undone, in order and exactly once, by the
+    undo storage instance, inside the storage transaction of THIS manager; the first refusal stops the commit."""
+    func = TU + '.commit'
+
+    def setup(self, c, case=None):
+        me, txn = self.mk(c)
+        return {'self': me, 'transaction': txn}
+
+    @property
+    def loops(self):
+        def hv(cc, fr):
+            g = cc.ghost['tu2']
+            g['n0'] = len(cc.events)
+            g['ok'] = z3.BoolVal(True)
+
+        def inv(cc, fr):
+            cur = fr.locals.get('$iter0')
+            if cur is None:
+                raise ContractStale('the loop contract expects to iterate the tids: the code has a different shape')
+            g = cc.ghost['tu2']
+            t = cc.obj(g['tids']).f
+            return [('iterating-the-tids-given', z3.And(cur.arr0 == t['arr'], cur.len0 == t['len'])),
+                    ('every-tid-met-so-far-was-undone-exactly-once-with-this-managers-data', g['ok'])]
+
+        def step(cc, fr):
+            g = cc.ghost['tu2']
+            tid = fr.locals.get('tid')
+            evs = [e for e in cc.events[g['n0']:] if e[0] == 'storage' and e[1] == 'undo']
+            ok = isinstance(tid, VBytes) and len(evs) == 1 and len(evs[0][2]) == 2 and evs[0][2][1] is g['data'] and \
+                isinstance(evs[0][2][0], VBytes)
+            g['ok'] = z3.And(z3.BoolVal(ok), bytes_num(cc, evs[0][2][0]) == bytes_num(cc, tid)) if ok \
+                else z3.BoolVal(False)
+        return {0: LoopSpec(inv=inv, havoc=hv, ghost_step=step)}
+
+    def modifies(self, c, E):
+        return set()
+
+    def outcomes(self, c, E):
+        return [Outcome('undone', result=lambda cc, E: NONE),
+                Outcome('refused', 'raise', UndoError)]
+
+
+class TUFinish(TUSpec):
+    """tpc_finish / tpc_abort: the undo storage instance finishes (aborts) the storage transaction of this manager
+    and is RELEASED on every exit, also when the storage raises."""
+    func = TU + '.tpc_finish'
+    method = 'tpc_finish'
+
+    def setup(self, c, case=None):
+        me, txn = self.mk(c)
+        return {'self': me, 'transaction': txn}
+
+    def modifies(self, c, E):
+        return {(c.ghost['tu2']['me'].id, '_storage')}
+
+    def outcomes(self, c, E):
+        g = c.ghost['tu2']
+
+        def post(cc, E, r):
+            fin = self.calls(cc, self.method)
+            rel = self.calls(cc, 'release')
+            return [('storage-%s-once-with-this-managers-data' % self.method,
+                     len(fin) == 1 and len(fin[0][2]) == 1 and fin[0][2][0] is g['data']),
+                    ('storage-instance-released-once-and-forgotten', len(rel) == 1 and
+                     isinstance(cc.obj(g['me']).f['_storage'], VNone))]
+        return [Outcome('done', post=post, result=lambda cc, E: NONE),
+                Outcome('storage-fails', 'raise', 'builtins:Exception', post=post)]
+
+
+class TUAbort(TUFinish):
+    func = TU + '.tpc_abort'
+    method = 'tpc_abort'
+
+
+SPECS += [TUCommit, TUFinish, TUAbort]
+INLINE += [TU + '.close']
+
+
+# ======================================================================================
+DECODED = z3.Function('tid_of_undo_id', Obj, I)
+
+
+class FSUndo(WriteSpec):
+    """FileStorage.undo(transaction_id, transaction): refused in read-only mode and for a transaction other than the one
+    in progress, with nothing staged; otherwise the transaction NAMED BY THE ID (decoded, eight bytes) is looked up
+    with the pack boundary as limit (_txn_find(tid, stop_at_pack)), its records are undone by _txn_undo_write at THAT
+    position, the positions it staged are merged into the transaction index, and the answer is (tid of the undo
+    transaction, oids undone) - the oids the MVCC undo adapter invalidates everywhere (proved in mvcc.py).
+    _txn_find and _txn_undo_write are assumed call-site contracts here (the latter: refusal proved above, record loop
+    bounded); base64 is uninterpreted."""
+    func = 'ZODB.FileStorage.FileStorage:FileStorage.undo'
+    props = ('C06',)
+    cases = ('same', 'other', 'same-readonly')
+
+    def setup(self, c, case=None):
+        h, t = self.mk(c, case, read_only=(case == 'same-readonly'))
+        c.ghost['fu'] = {'h': h, 'find': [], 'write': [], 'res': None}
+        return {'self': h.self, 'transaction_id': c.fresh_opaque('undo_id'), 'transaction': t}
+
+    def hooks(self, c):
+        hk = WriteSpec.hooks(self, c)
+        g = lambda cc: cc.ghost['fu']
+
+        def decode(cc, interp, args, kwargs, node):
+            t = cc.fresh_bytes(8, 'decoded_tid')
+            g(cc)['decoded'] = t
+            return t
+
+        def binop(cc, op, a, b, node):
+            if isinstance(a, VOpaque) and a.tag == 'undo_id':
+                return a
+            return None
+
+        def txn_find(cc, args, kwargs, node):
+            g(cc)['find'].append(tuple(args[1:]))
+            if cc.choose([True, True], 'transaction-found') == 1:
+                raise RaiseSig(VExc(UndoError))
+            p = cc.fresh_int('tpos')
+            cc.assume(z3.And(p.t >= 4, p.t < M.MAXPOS))
+            g(cc)['tpos'] = p
+            return p
+
+        def undo_write(cc, args, kwargs, node):
+            g(cc)['write'].append(tuple(args[1:]))
+            if cc.choose([True, True], 'records-undoable') == 1:
+                raise RaiseSig(VExc(UndoError))
+            r = prims.new_map(cc, 'bytes8', 'int', 'undone_tindex')
+            cc.roles.array(cc.obj(r).f['dom'], 'oid')
+            cc.roles.array(cc.obj(r).f['val'], 'oid')
+            g(cc)['res'] = r
+            return r
+        hk['prim:base64.decodebytes'] = decode
+        hk['binop'] = binop
+        hk['call:ZODB.FileStorage.FileStorage:FileStorage._txn_find'] = txn_find
+        hk['call:ZODB.FileStorage.FileStorage:FileStorage._txn_undo_write'] = undo_write
+        return hk
+
+    def modifies(self, c, E):
+        h = c.ghost['fu']['h']
+        return {(h.tindex.id, 'dom'), (h.tindex.id, 'val'), (h.tindex.id, 'size'), (h.file.id, 'pos'),
+                (h.tfile.id, '*')}
+
+    def outcomes(self, c, E):
+        g = c.ghost['fu']
+        h = g['h']
+        S = c.obj(h.self).f
+        ro = S['_is_read_only'].t
+        same = E['transaction'].t == S['_transaction'].t
+        ti0 = dict(c.obj(h.tindex).f)
+
+        def untouched(cc, E, x):
+            ti = cc.obj(h.tindex).f
+            return [('nothing-staged-nothing-looked-up', z3.And(ti['dom'] == ti0['dom'], ti['val'] == ti0['val'])),
+                    ('no-lookup', not g['find'] and not g['write'])]
+
+        def refused(cc, E, x):
+            ti = cc.obj(h.tindex).f
+            return [('transaction-index-untouched', z3.And(ti['dom'] == ti0['dom'], ti['val'] == ti0['val']))] + \
+                lock_balanced(cc, E, h)
+
+        def post(cc, E, r):
+            ti = cc.obj(h.tindex).f
+            out = [('looked-up-once-by-the-decoded-tid-with-the-pack-boundary-as-limit',
+                    len(g['find']) == 1 and len(g['find'][0]) == 2 and g['find'][0][0] is g.get('decoded') and
+                    isinstance(g['find'][0][1], VInt) and g['find'][0][1].conc() not in (None, 0)),
+                   ('records-undone-once-at-the-position-found', len(g['write']) == 1 and len(g['write'][0]) == 1 and
+                    g['write'][0][0] is g.get('tpos'))]
+            res = g['res']
+            if res is None:
+                return out + [('undo-result-merged', False)]
+            rf = cc.obj(res).f
+            out += [('staged-positions-merged-into-the-transaction-index', All(['oid'], lambda q: z3.And(
+                        z3.Select(ti['dom'], q) == z3.Or(z3.Select(ti0['dom'], q), z3.Select(rf['dom'], q)),
+                        z3.Implies(z3.Select(rf['dom'], q), z3.Select(ti['val'], q) == z3.Select(rf['val'], q)),
+                        z3.Implies(z3.And(z3.Select(ti0['dom'], q), z3.Not(z3.Select(rf['dom'], q))),
+                                   z3.Select(ti['val'], q) == z3.Select(ti0['val'], q))))),
+                    ('answers-(tid of this transaction, undone oids)', isinstance(r, VTuple) and len(r.items) == 2 and
+                     r.items[0] is S['_tid'])]
+            return out + lock_balanced(cc, E, h)
+        live = z3.And(z3.Not(ro), same)
+        return [Outcome('read-only', 'raise', ReadOnlyError, guard=ro, post=untouched),
+                Outcome('wrong-transaction', 'raise', StorageTransactionError,
+                        guard=z3.And(z3.Not(ro), z3.Not(same)), post=untouched),
+                Outcome('undone', guard=live, post=post, result=lambda cc, E: cc.fresh_opaque('answer')),
+                Outcome('refused', 'raise', UndoError, guard=live, post=refused)]
+
+
+SPECS.append(FSUndo)
